@@ -70,6 +70,11 @@ def run(ctx, rep):
             fam.setdefault(p_.split("::")[0], []).append(prog.fns[p_])
         for k_, fs_ in sorted(fam.items()):
             groups.append(("C08", "%s commit" % k_, fs_, lambda sub_, lf_: c08.check_commit(cfg, w, sub_, lf_)))
+        if "link_to" in cfg:
+            from . import c19
+            linkers = [lf for lf in prog.fns.values() if lf.outer.name in ("read", "poll_read") and lf.outer.impl_trait and
+                       _sr(lf.outer.impl_self or "").startswith("content::linkto::")]
+            groups.append(("C19", "linker read", linkers, lambda sub_, lf_: c19.check_linker_read(cfg, w, sub_, lf_)))
         for tag, what, fns_, run_ in groups:
             per = {}
             for lf_ in fns_:
